@@ -71,7 +71,9 @@ def _child(spec_path):
 
 
 def run_case(task):
-    infn, infmt_explicit, target, give_i, give_o, allow, many, existed = task
+    infn, infmt_explicit, target, give_i, give_o, allow, many, existed = task[:8]
+    link = task[8] if len(task) > 8 else ""       # "out": the output path is a symbolic link; "in": the input path is one
+    infn0 = infn
     tmp = tempfile.mkdtemp(prefix="c18_")
     try:
         res = {}
@@ -82,9 +84,23 @@ def run_case(task):
             d = os.path.join(tmp, who)
             os.makedirs(d)
             outfn = os.path.join(d, outname)
-            if existed:
+            if link == "out":
+                # a link named like one format pointing to a file named like another: the name the user gave decides
+                other = ".pdb" if not outname.endswith(".pdb") else ".xyz"
+                os.makedirs(os.path.join(d, "slots"))
+                real = os.path.join(d, "slots", "slot_a" + other)
+                with open(real, "wb") as fh:
+                    fh.write(OLD)
+                os.symlink(real, outfn)
+            elif existed:
                 with open(outfn, "wb") as fh:
                     fh.write(OLD)
+            if link == "in":
+                os.makedirs(os.path.join(d, "blobs"))
+                blob = os.path.join(d, "blobs", "7f3a9c01")
+                shutil.copy(infn0, blob)
+                infn = os.path.join(d, os.path.basename(infn0))
+                os.symlink(blob, infn)
             infmt = infmt_explicit if give_i else None
             outfmt = target if give_o else None
             if who == "api":
@@ -129,7 +145,7 @@ def run_case(task):
                 st, h = file_state(outfn, existed)
                 res["fn"] = {"out": classify(exc), "file": st, "hash": h}
         res["args"] = {"input": os.path.basename(infn), "infmt": infmt_explicit if give_i else "", "outfmt": target if give_o else "",
-                       "target": target, "allow": allow, "many": many, "existed": existed}
+                       "target": target, "allow": allow, "many": many, "existed": existed or link == "out", "link": link}
         return res
     finally:
         shutil.rmtree(tmp, ignore_errors=True)
@@ -161,6 +177,14 @@ def cases(run, rng):
             for t in ("molden", "molekel", "wfn", "wfx", "fchk"):
                 for allow in (False, True):
                     tasks.append((p, f, t, not sel, rng.random() < 0.5, allow, False, rng.random() < 0.5))
+    # symbolic links: the format is derived from the name the user gave, not from where the link points
+    for f in ("xyz", "mol2", "poscar", "fchk", "sdf"):
+        for p, sel in sorted(by.get(f, []), key=lambda x: os.path.getsize(x[0]))[: run.pick(1, 3)]:
+            if not sel:
+                continue
+            for t in ("xyz", "pdb", "sdf"):
+                tasks.append((p, f, t, False, False, False, False, True, "out"))
+                tasks.append((p, f, t, False, False, False, False, False, "in"))
     # inputs that cannot be loaded / unknown formats
     data = os.path.join(REPO, "iodata", "test", "data")
     tasks.append((os.path.join(data, "water.xyz"), "fchk", "xyz", True, False, False, False, True))
